@@ -70,7 +70,15 @@ func c07Extra(r *core.Run) {
 
 	r.Check("D4/K3/cancel-records-before-draining", "cancel records the error before it drains the source: draining blocks until the generator returns, and a reducer that writes in that window must already find the cancel error", func(o *core.O) {
 		isSet := core.CallMethod("errorx.AtomicError", "Set")
-		isDrain := core.CallTo("lib/mr.drain")
+		// role: the drain helper is the in-package function that is handed one receive-capable channel and nothing else
+		isDrain := func(in ssa.Instruction) bool {
+			c, ok := in.(*ssa.Call)
+			if !ok || c.Call.StaticCallee() == nil || c.Call.StaticCallee().Pkg == nil || c.Call.StaticCallee().Pkg.Pkg.Path() != core.Mod+"/"+mrPkg || len(c.Call.Args) != 1 {
+				return false
+			}
+			ch, ok := c.Call.Args[0].Type().Underlying().(*types.Chan)
+			return ok && ch.Dir() != types.SendOnly
+		}
 		n := 0
 		for _, f := range p.PkgFuncs(mrPkg) {
 			sets, drains := core.Instrs(f, isSet), core.Instrs(f, isDrain)
